@@ -816,17 +816,23 @@ def url_concat(
         return url
     parsed_url = urlparse(url)
     if isinstance(args, dict):
-        parsed_query = parse_qsl(parsed_url.query, keep_blank_values=True)
+        parsed_query = parse_qsl(
+            parsed_url.query, keep_blank_values=True, errors="surrogateescape"
+        )
         parsed_query.extend(args.items())
     elif isinstance(args, list) or isinstance(args, tuple):
-        parsed_query = parse_qsl(parsed_url.query, keep_blank_values=True)
+        parsed_query = parse_qsl(
+            parsed_url.query, keep_blank_values=True, errors="surrogateescape"
+        )
         parsed_query.extend(args)
     else:
         err = "'args' parameter should be dict, list or tuple. Not {0}".format(
             type(args)
         )
         raise TypeError(err)
-    final_query = urlencode(parsed_query)
+    # surrogateescape: percent-escapes in the existing query that are not
+    # valid UTF-8 (e.g. "%ff") must survive unchanged.
+    final_query = urlencode(parsed_query, errors="surrogateescape")
     url = urlunparse(
         (
             parsed_url[0],
